@@ -132,6 +132,16 @@ CLAIMED = {
          "file system (permissions, I/O errors, hard links, links in directory components), compile-time output-name rules, multi-fork top-level calls, directories "
          "as outputs.",
          "DESIGN.md §4 (C13)"),
+ "C17": ("Partial (structural logic; leaf decoding is a reference model): the types int, float, string, bool, a user file type, int[], int[][], map<int>, a struct, "
+         "a struct of struct/array/map/file and an array of structs are compiled from MRO text by the real compiler; the harness generates conforming JSON values "
+         "(arbitrary digits, letters, booleans, array lengths 0..2, undeclared struct fields or not, members in declared or reversed order) and near-misses (one "
+         "position of the wrong shape, or a struct lacking a member) and runs the real IsValidJson / FilterJson / CanFilter / sameSlice paths: conforming values "
+         "and null validate, near-misses do not (user file types: accepted with an alarm, the documented leniency), filtering a valid value reports no error, gives a "
+         "valid value, is idempotent, returns its input unchanged when nothing has to be dropped and otherwise drops exactly the undeclared struct fields; a wider "
+         "struct filters to the narrower struct it is assignable to.",
+         "Trusted: go/ssa, symgo, z3, the reference JSON decoder in the harness (which byte strings are numbers / strings / booleans is the model's verdict). "
+         "Outside: encoding/json itself, integral floats re-written as integers, odd whitespace and escapes, untyped maps, maps of arrays, the full assignability relation.",
+         "DESIGN.md §4 (C17)"),
  "C18": ("Every byte string up to the stated length (quick 4, thorough 5 bytes; formatArgs 2+1+1 / 2+2+1) is pushed "
          "symbolically through the real appendShellSafeQuote/shellSafeQuote/formatArgs and a POSIX double-quote "
          "reference de-quoter; the solver shows on every path that sh recovers the original bytes, or returns the bytes "
@@ -143,7 +153,6 @@ CLAIMED = {
 
 NOT_APPLICABLE = {
  "C07": "solver-based checking cannot reach it: acceptance is decided by a type checker walking heap-allocated ASTs of unbounded shape and by encoding/json-driven validation (reflection); fixing the program shape would reduce to enumerating concrete programs (DESIGN.md §5)",
- "C17": "every clause is driven by encoding/json results (reflection/unsafe, outside the encoder); stubbing it would make the stub the subject; assignability alone is a finite table, i.e. enumeration (DESIGN.md §5)",
 }
 
 PENDING = {}
